@@ -1540,6 +1540,47 @@ func c10Sources(tier string, fn func(kind, src string)) {
 			}
 		}
 	}
+	// operations that are REFUSED (a collection put into itself, directly or wrapped), each in a
+	// method with a handler, one or two in a row; then the collection is rendered in every way: a
+	// refusal leaves the collection as it was
+	{
+		type coll struct {
+			decl string
+			ops  []string
+			uses []string
+		}
+		colls := []coll{
+			{"令甲 = 【A = 1，B = 2】",
+				[]string{"以甲（写入：“新”、甲）", "以甲（写入：“A”、甲）", "甲#“新二” = 甲", "甲#“B” = 甲", "以甲（写入：“新三”、【甲】）", "以甲（写入：“新四”、【K = 甲】）", "以甲（移除：“A”）", "以甲（写入：“C”、3）"},
+				[]string{"甲之文本", "甲之所有值", "甲之所有索引", "甲之数目", "（生成JSON：甲）", "“{}” % 【甲】", "甲 为 【A = 1，B = 2】", "（抄：甲）之文本"}},
+			{"令甲 = 【1，2】",
+				[]string{"以甲（后增：甲）", "以甲（前增：甲）", "以甲（新增：1、甲）", "以甲（合并：【甲】）", "甲#1 = 甲", "甲#2 = 【甲】", "以甲（后增：【K = 甲】）", "以甲（左移）", "以甲（后增：3）"},
+				[]string{"甲之文本", "甲之长度", "甲之逆序", "甲之首项", "“{}” % 【甲】", "甲 为 【1，2】", "以甲（包含：甲）", "（抄：甲）之文本"}},
+		}
+		for _, cl := range colls {
+			var seqs [][]int
+			for a := range cl.ops {
+				seqs = append(seqs, []int{a})
+				for b := range cl.ops {
+					seqs = append(seqs, []int{a, b})
+				}
+			}
+			for _, sq := range seqs {
+				for _, u := range cl.uses {
+					var b strings.Builder
+					b.WriteString("导入《@JSON》\n" + cl.decl + "\n如何抄？\n    输入物\n    令副 = 物\n    输出 副\n")
+					for i, o := range sq {
+						fmt.Fprintf(&b, "如何步%d？\n    %s\n    输出 1\n    拦截异常：\n        输出 0\n", i, cl.ops[o])
+					}
+					for i := range sq {
+						fmt.Fprintf(&b, "（步%d）\n", i)
+					}
+					b.WriteString("输出 " + u)
+					fn("refused-then-rendered", b.String())
+				}
+			}
+		}
+	}
 	// the same operation first with fitting operands, then with operands that do not fit
 	// (whatever the first use left behind): a Zn error, not a crash
 	tmpls := []string{"{}-{}", "{#.2}：{}", "{#+}{#.1%}{#.2E}"}
